@@ -162,5 +162,78 @@ Definition judge_s (c : scase) : list Z :=
     match cdev with Some d => permille d | None => (-1)%Z end;
     permille (outside L lo hi) ].
 
-Inductive case09 := CR (c : rcase) | CS (c : scase).
-Definition judge (c : case09) : list Z := match c with CR r => judge_r r | CS s => judge_s s end.
+(* ------------------------------------------------------------------ SplitAt on ONE elliptical arc *)
+From CV Require Import Geom.Matrix Geom.MatrixProofs Geom.Ellipse.
+
+(** a returned piece: the stored arc fields compared with the input's by the harness (same radii / rotation), its flags and
+    end points, and Go's own Length() of it *)
+Record apiece := mkAP { ap_same : bool; ap_large : bool; ap_sweep : bool; ap_s : qpt; ap_e : qpt; ap_len : Q }.
+Record acase := mkA {
+  aC : qpt; aRx : Q; aRy : Q; aCs : Q; aSn : Q;            (* centre, radii, rational (cos, sin) of the rotation *)
+  aS : qpt; aE : qpt; aLarge : bool; aSweep : bool;         (* the input arc as handed to ArcTo *)
+  aLen : Q; aCuts : list Q; aPieces : list apiece; aPanic : bool }.
+
+(** a point in the plane of the unit circle of the ellipse: centre subtracted, axes aligned, radii divided out *)
+Definition circ (c : acase) (p : qpt) : qpt :=
+  let w := frame (aCs c) (aSn c) (qsub p (aC c)) in (fst w / aRx c, snd w / aRy c).
+Definition on_unit (sl : Q) (u : qpt) : bool :=
+  let n := fst u * fst u + snd u * snd u in Qle_bool (1 - sl) n && Qle_bool n (1 + sl).
+Definition pt_eqb (a b : qpt) : bool := Qeq_bool (fst a) (fst b) && Qeq_bool (snd a) (snd b).
+
+Fixpoint chained (prev : qpt) (ps : list apiece) : bool :=
+  match ps with [] => true | p :: r => pt_eqb prev (ap_s p) && chained (ap_e p) r end.
+Fixpoint last_end (d : qpt) (ps : list apiece) : qpt := match ps with [] => d | p :: r => last_end (ap_e p) r end.
+
+(** the flag of a piece against the geometry: the arc from u to v in the sweep direction is longer than a half turn iff
+    arc_large says so (Geom/Ellipse.v: the sign of the cross product in the circle plane); not judged within 2^-20 of a
+    half turn *)
+Definition large_ok (c : acase) (p : apiece) : bool :=
+  let u := circ c (ap_s p) in let v := circ c (ap_e p) in
+  let x := qcross u v in
+  if Qle_bool (Qabs x) (1 # 1048576) then true else Bool.eqb (ap_large p) (arc_large (ap_sweep p) u v).
+
+(** the cut points advance along the arc: each lies in the span from the previous one to the end *)
+Fixpoint advancing (c : acase) (prev : qpt) (ps : list apiece) : bool :=
+  match ps with
+  | [] | [_] => true
+  | p :: r => in_spanb (aSweep c) (circ c prev) (circ c (aE c)) (circ c (ap_e p)) && advancing c (ap_e p) r
+  end.
+
+Fixpoint cum_ok (tol acc : Q) (cuts : list Q) (ps : list apiece) : bool :=
+  match cuts, ps with
+  | t :: cuts', p :: ps' => let acc' := acc + ap_len p in
+                            Qle_bool (Qabs (acc' - t)) tol && cum_ok tol acc' cuts' ps'
+  | _, _ => true
+  end.
+
+(** [flags; #pieces; 0]: 1 tie (the generator's arc: end points on the ellipse, large flag consistent), 2 PROP a piece is
+    not an arc of the same ellipse in the same direction, 4 PROP pieces do not chain from the start to the end of the arc,
+    8 PROP a cut point is off the ellipse or does not advance along the arc, 16 PROP a piece's large-arc flag contradicts
+    its end points (the piece goes the other way round), 32 PROP number of pieces, 64 PROP Go's own lengths: the pieces do
+    not sum to Length() or a cut is not within 1 % of Length() of its position, 128 PROP panic *)
+Definition judge_a (c : acase) : list Z :=
+  if aPanic c then [128%Z; 0%Z; 0%Z] else
+  let sl := 1 # 1073741824 in
+  let u := circ c (aS c) in let v := circ c (aE c) in
+  let gen_ok := on_unit sl u && on_unit sl v &&
+                (Qle_bool (Qabs (qcross u v)) (1 # 1048576) || Bool.eqb (aLarge c) (arc_large (aSweep c) u v)) in
+  let ps := aPieces c in
+  let inner := filter (fun t => Qle_bool (1 # 100000) t && Qle_bool t (aLen c - (1 # 100000))) (aCuts c) in
+  let same := forallb (fun p => ap_same p && Bool.eqb (ap_sweep p) (aSweep c)) ps in
+  let chain := chained (aS c) ps && pt_eqb (last_end (aS c) ps) (aE c) in
+  let onell := forallb (fun p => on_unit sl (circ c (ap_e p))) ps && advancing c (aS c) ps in
+  let larges := forallb (large_ok c) ps in
+  let cnt := (length ps =? S (length inner))%nat in
+  let total := fold_right (fun p a => ap_len p + a) 0 ps in
+  let lens := Qle_bool (Qabs (total - aLen c)) (aLen c * (1 # 100) + (1 # 1000000)) &&   (* Length() is itself a quadrature: 1 % *)
+              cum_ok (aLen c * (1 # 100) + (1 # 1000000)) 0 inner ps in
+  (* worst distance of a cumulated (Go's own) piece length from its cut position, and of the total from Length(), in 1/1000 of Length() *)
+  let devs := (fix go (acc : Q) (cuts : list Q) (l : list apiece) : list Q :=
+                 match cuts, l with t :: cuts', p :: l' => Qabs (acc + ap_len p - t) :: go (acc + ap_len p) cuts' l' | _, _ => [] end) 0 inner ps in
+  let worst := fold_right (fun d m => if Qle_bool m d then d else m) (Qabs (total - aLen c)) devs in
+  [ (bit (negb gen_ok) 1 + bit (negb same) 2 + bit (negb chain) 4 + bit (negb onell) 8 + bit (negb larges) 16 +
+     bit (negb cnt) 32 + bit (cnt && negb lens) 64)%Z; Z.of_nat (length ps);
+    (if Qle_bool (aLen c) 0 then 0 else Qfloor (worst * 1000 / aLen c))%Z ].
+
+Inductive case09 := CR (c : rcase) | CS (c : scase) | CA (c : acase).
+Definition judge (c : case09) : list Z := match c with CR r => judge_r r | CS s => judge_s s | CA a => judge_a a end.
